@@ -92,7 +92,12 @@ Register(d, alias, impl) ==
                    ELSE Append(@, [v |-> alias, n |-> impl])]
     /\ cur = NoDict /\ want = "none"
     /\ (phase = "calls" => LateRegister)
-    /\ hist' = IF phase = "calls" THEN Append(hist, [a |-> "Register", d |-> d, alias |-> alias, impl |-> impl]) ELSE hist
+    /\ hist' = IF phase = "calls"
+               THEN Append(hist, [a |-> "Register", d |-> d, alias |-> alias, impl |-> impl,
+                                  prev |-> LET t == tabs[nodes[d].tab]
+                                               hits == {e \in 1 .. Len(t) : t[e].v = alias} IN
+                                           IF hits = {} THEN 0 ELSE t[CHOOSE e \in hits : TRUE].n])
+               ELSE hist
     /\ UNCHANGED <<nodes, phase, cur, want>>
     /\ act' = [a |-> "Register", d |-> d, alias |-> alias, impl |-> impl]
 
